@@ -30,6 +30,7 @@ func init() {
 
   container a {
     leaf al { type string; }
+    leaf-list words { type string; default "u v"; }
     container b {
       leaf bl { type string; }
       container c {
